@@ -30,6 +30,12 @@ CLAIMS = {
  'C07': dict(technique="runtime monitoring: placement generator with verdict known by construction; accepted designs elaborated by vsim, whose per-bit driver ownership analysis and variable-scope rule observe the emitted architecture",
              text="Exploration: target kind x writer/reader sites (two clocked contexts in std and core style, concurrent, always block, three instance outputs) x 8 write shapes; singles, pairs, sampled triples.",
              ref="2 C07"),
+ 'C10': dict(technique="runtime monitoring: differential against CPython - the same function object is executed natively and by CoHDL's tracer inside a context, results captured by a pyeval probe and compared structurally",
+             text="Exploration: seeded signature x call-shape pairs (CPython's TypeError must be mirrored by a rejection) and seeded programs over closures, classes, operator fallbacks, containers and comprehensions.",
+             ref="2 C10"),
+ 'C13': dict(technique="runtime monitoring: fresh interpreter per creation order with post-hoc assertions on identity / issubclass / isinstance of the lazily created classes and on view write-through; nested views in emitted logic executed by vsim",
+             text="Exploration: seeded creation orders (widths 1..40, arrays, 4 qualifiers, 3 directions) in fresh processes; random nested view chains as read sources and write targets of compiled entities.",
+             ref="2 C13"),
  'C08': dict(technique="runtime monitoring: poison sanitizer in vsim (every compiler temporary is poisoned at the start of each process activation, reads are trapped) + independent path-enumeration oracle for must-reject placements",
              text="Exploration: every definition/use placement over small if/match/for-break skeletons incl. coroutine state crossings (small scope, exhaustive in thorough tier) and the C01/C03/C04 generators under the poison monitor.",
              ref="2 C08"),
